@@ -536,6 +536,8 @@ def apply_record(tx_pos, v):
         if S not in P or (E - 1) not in P:
             return ('end point not exonic', S, E)
         return [p for p in P if not S <= p < E]
+    if v.type in ('Insertion', 'Substitution') and int(v.attrs['DONOR_START']) >= int(v.attrs['DONOR_END']):
+        return ('empty or inverted donor range', int(v.attrs['DONOR_START']), int(v.attrs['DONOR_END']))
     if v.type == 'Insertion':
         if s not in P:
             return ('anchor not exonic', s)
@@ -560,6 +562,7 @@ def make_event(rng, kind, strand):
             break
     m = rng.randint(1, k - 3)
     if kind == 'SE':
+        m = rng.randint(1, k - 2)
         U, E, D = ex[m - 1], ex[m], ex[m + 1]
         return ex, ex[:m] + ex[m + 1:], dict(exon_start=E[0], exon_end=E[1], upstream_exon_start=U[0], upstream_exon_end=U[1],
                                              downstream_exon_start=D[0], downstream_exon_end=D[1])
@@ -570,12 +573,14 @@ def make_event(rng, kind, strand):
         return a, b, dict(first_exon_start=E1[0], first_exon_end=E1[1], second_exon_start=E2[0], second_exon_end=E2[1],
                           upstream_exon_start=U[0], upstream_exon_end=U[1], downstream_exon_start=D[0], downstream_exon_end=D[1])
     if kind == 'RI':
+        m = rng.randint(0, k - 2)
         U, D = ex[m], ex[m + 1]
         retained = ex[:m] + [(U[0], D[1])] + ex[m + 2:]
         return retained, ex, dict(retained_intron_exon_start=U[0], retained_intron_exon_end=D[1], upstream_exon_start=U[0], upstream_exon_end=U[1],
                                   downstream_exon_start=D[0], downstream_exon_end=D[1])
     # alternative splice sites: the exon end varies when the site is the donor (+: A5SS, -: A3SS), else the start
     end_varies = (kind == 'A5SS') == (strand == 1)
+    m = rng.randint(0, k - 2) if end_varies else rng.randint(1, k - 1)      # the event exon may be the first / last exon
     E = ex[m]
     cut = rng.randint(1, E[1] - E[0] - 2)
     if end_varies:
